@@ -153,6 +153,19 @@ func (w *world) badTx(kind string) *types.Transaction {
 			}
 			return t
 		}
+	case "qi-noinput", "qi-inactive", "qi-inactive2":
+		// unsigned Qi transactions without inputs: refused by ValidateQiTxInputs; the
+		// "inactive" ones also emit an output to a zone that is not active (address prefix 0x01 / 0x10)
+		outs := types.TxOuts{{Denomination: 1, Address: make([]byte, 20)}}
+		if kind != "qi-noinput" {
+			outs[0].Address[0] = 0x01
+		}
+		if kind == "qi-inactive2" {
+			a2 := make([]byte, 20)
+			a2[0] = 0x10
+			outs = append(outs, types.TxOut{Denomination: 2, Address: a2})
+		}
+		return types.NewTx(&types.QiTx{ChainID: chainID, TxIn: types.TxIns{}, TxOut: outs})
 	default:
 		return types.NewTx(&types.ExternalTx{Gas: 21000, To: &to, Value: big.NewInt(1), Sender: w.accts[0].addr})
 	}
